@@ -19,17 +19,19 @@ def c_name(name):
     return name if i < 0 else name[:i]
 
 def req_len(name):
-    """length of the request the resolver builds for this name; None when the name is refused (too short)"""
-    n = min(len(c_name(name)), 63)
-    return None if n < 4 else 2 + 12 + n + 2 + 4
+    """length of the request the resolver builds for this name; None when the name is refused (too short).
+    Limits and structure sizes come from the translator (gen/grp_c20.py), not from this file."""
+    c = consts()
+    n = min(len(c_name(name)), c['DOMAIN_MAX'])
+    return None if n < c['DOMAIN_MIN'] else c['PREFIX_SIZE'] + c['HEADER_SIZE'] + n + 2 + c['QSUFFIX_SIZE']
 
 def qname(labels):
     return b''.join(bytes([len(l)]) + l for l in labels) + b'\0'
 
 def question_echo(name):
     """a question section of exactly the size the resolver's own request has (name cut to 63 characters)"""
-    n = c_name(name)[:63]
-    return bytes([0]) * 0 + _enc_like(n) + b'\x00\x01\x00\x01'
+    n = c_name(name)[:consts()['DOMAIN_MAX']]
+    return _enc_like(n) + b'\x00\x01\x00\x01'
 
 def _enc_like(n):
     """dl+2 bytes: label encoding of n when it is a regular name, otherwise filler of the right size"""
@@ -129,7 +131,7 @@ class C20(F.PropCheck):
     def gen_reply(self, rng, name, want):
         """want in good|cname|bad|random"""
         ipb = bytes(rng.getrandbits(8) for _ in range(4))
-        nm = c_name(name)[:63]
+        nm = c_name(name)[:consts()['DOMAIN_MAX']]
         def namefield():
             k = rng.random()
             if k < 0.55: return b'\xc0\x0c'
@@ -276,7 +278,7 @@ class C20(F.PropCheck):
         for es, os_ in zip(esegs, osegs):
             nres = sum(1 for e in es if e[0] == 'RESOLVE')
             cbs = [o for o in os_ if o[0] == 'CB']
-            credit = nres + open_prev
+            credit = nres + open_prev; was_open = open_prev
             if len(cbs) > credit:
                 v.append('%d completion callbacks for %d resolve request(s) that could still be waiting for one' % (len(cbs), credit))
             open_next = 1 if credit - len(cbs) >= 1 else 0
@@ -300,7 +302,7 @@ class C20(F.PropCheck):
                 if quiet >= QUIET_US and len(cbs) == 0:
                     v.append('resolve request for a %d-character name never completed: no callback after %d us without network events' % (len(c_name(name)), quiet))
                 # an address is reported only for an acceptable reply received for this request
-                for cb in cbs:
+                for cb in ([] if was_open else cbs):     # with an older request possibly open the callback cannot be attributed
                     if cb[1] and cb[1][0] == 1:
                         addr = bytes(cb[2])
                         recvs = [bytes(e[2]) for e in after if e[0] == 'RECV']
@@ -310,6 +312,12 @@ class C20(F.PropCheck):
                                      % ('.'.join(map(str, addr)), len(c_name(name)), len(recvs)))
         return v
 
-    def finding_key(self, case, what): return None
+    def finding_key(self, case, what):
+        """fallback when the repair docs/fixes/C20_short_name_stale_state.diff is not applied: failures of cases in which
+        supla_esp_dns_resolve is called with a name shorter than DOMAIN_MIN_LEN (result() then runs on the stale
+        success / try_counter of the previous request)"""
+        if any(e[0] == 'RESOLVE' and req_len(bytes(e[2])) is None for e in case.evs):
+            if what.startswith(('implementation crashed', 'address ', 'disagreement', 'resolve request')): return 'short-name-stale-state'
+        return None
 
 CHECK = C20()
